@@ -51,7 +51,7 @@ CHECKS = {
          "The volume (2x the advertised window) is a deterministic repetition of each enumerated class, not a sample. The sender stops on a stream after flushing what was in flight when RST_STREAM arrived.",
          "DESIGN.md §4 C14"),
  "C13": ("exhaustive event-sequence exploration (ELX) of adversarial moves with gated handlers on the real ServeConn, with pool gauges of the controlled runtime as the memory oracle, plus pumped repetitions",
-         "MaxConcurrentStreams=2, MaxRequestBodySize=8, MaxHeaderListSize=200. Every sequence to depth 5 (quick) / 7 (thorough) over 13 adversarial moves (request, half-open request, RST of the newest stream, PRIORITY / WINDOW_UPDATE on new idle ids, open header block, CONTINUATION with more fields, DATA over the limit, mis-declared content-length, PING, SETTINGS, oldest handler returns); live sequences are also repeated x8 and x32. Invariants at every quiescent state: handlers running <= limit, body/header list seen by handlers within limits, Stream / RequestCtx objects held <= limit+2, queued frames bounded, and no gauge larger after 32 repetitions than after 8.",
+         "MaxConcurrentStreams=2, MaxRequestBodySize=8, MaxHeaderListSize=400. Every sequence to depth 5 (quick) / 7 (thorough) over 13 adversarial moves (request, half-open request, RST of the newest stream, PRIORITY / WINDOW_UPDATE on new idle ids, open header block, CONTINUATION with more fields, DATA over the limit, mis-declared content-length, PING, SETTINGS, oldest handler returns); live sequences are also repeated x8 and x32. Invariants at every quiescent state: handlers running <= limit, body/header list seen by handlers within limits, Stream / RequestCtx objects held <= limit+2, queued frames bounded, and no gauge larger after 32 repetitions than after 8.",
          "Per-connection memory is observed as outstanding objects of the deterministic pools substituted for sync.Pool; the closed-stream ring (constant cap in the code) is not observable this way.",
          "DESIGN.md §4 C13"),
  "C10": ("exhaustive enumeration (ELX) of a catalogue of connection-scoped offences x history x trailing traffic x peer behaviour on the real ServeConn with virtual timers",
@@ -62,6 +62,22 @@ CHECKS = {
          "A recorded 17-frame client conversation (CONTINUATION, padding, priority, trailers, WINDOW_UPDATE, PING, RST_STREAM) cut at every byte with handlers returning before or after the cut; every single mutation (delete/duplicate/swap frame, each flag bit, each type 0..10, stream id 0/+2/-2/even, length +-1; a deterministic slice of pairs in thorough); every sequence of <= 3 frames from a 28-frame soup with malformed sizes (and depth 4 over the 11 frames that keep a connection alive in thorough); the server's k-th Write failing for k=1..14; a peer that stops reading. Oracle: no recover() line, no unrecovered panic, ServeConn returns once the peer is gone and handlers returned and virtual timers fired, no goroutine left, pool tracker silent (double release, context recycled while its handler runs).",
          "Canonical internal schedule between events; teardown races at lock granularity are C19's.",
          "DESIGN.md §4 C17"),
+ "C02": ("exhaustive enumeration (ELX) of server response encodings, fragmentations and interleavings against the real Client.RoundTrip path (dial, handshake, both loops) under the controlled scheduler",
+         "Request shapes (none / buffered / streamed declared / unknown / empty bodies, connection-specific fields) each checked at the scripted server; response header block split into HEADERS+CONTINUATION at every offset (pairs in thorough), every representation x Huffman choice, every chunking of a 3-byte body incl. empty and padded DATA frames and END_STREAM on an empty frame, a 40000-byte body; 2 (quick) / 3 (thorough) concurrent requests with every frame-level interleaving of their responses. Oracle: each request arrives once on the next odd id, intact; each caller gets exactly the status, fields and body sent on its own stream.",
+         "Callers are started one at a time (submission races: C19). Derived fasthttp request headers (user-agent, content-length, content-type) are tolerated.",
+         "DESIGN.md §4 C02"),
+ "C07": ("exhaustive event-sequence exploration (ELX) of server grants and SETTINGS changes against the real Client uploading, with the scripted server keeping the authoritative ledger",
+         "Server INITIAL_WINDOW_SIZE in {0,1,5,70000}; a prelude upload leaves the connection window at 5; 7 (quick) / 11 (thorough) configurations of 1-3 uploads (sizes 0..40000, buffered / streamed declared / streamed unknown); every sequence to depth 3 / 4 over {stream WINDOW_UPDATE 1|2|big, connection WINDOW_UPDATE 1|3|big, SETTINGS_INITIAL_WINDOW_SIZE 0|1|4|70000, SETTINGS_MAX_FRAME_SIZE 16384|20000, other SETTINGS}, each followed by a closing phase. Oracle: ledger never negative at a DATA frame, no frame above the MAX_FRAME_SIZE in force, never stuck with both windows positive, every body complete with END_STREAM once and every caller resolved.",
+         "Canonical internal schedule between events; grant-vs-spend races at lock granularity are C19's.",
+         "DESIGN.md §4 C07"),
+ "C11": ("exhaustive enumeration (ELX) of GOAWAY positions, last-stream-ids and follow-up event orders against the real Client with scripted servers",
+         "1-2 (quick) / 1-3 (thorough) requests in flight in every combination of progress (HEADERS sent / response HEADERS received / partial body) x last-stream-id in {0, each in-flight id, above all} x code {NO_ERROR, PROTOCOL_ERROR} x every ordering (depth 2-3) of {complete a promised response, REFUSED_STREAM, a new request, server closes}. Oracle: disclaimed requests end with an error at the quiescent state after the GOAWAY (or are re-sent on a new connection), never succeed; HEADERS of a request reach servers at most once unless disclaimed; retryable only if disclaimed; no new stream on the connection after GOAWAY; promised requests answered by the script complete with that answer.",
+         "'Promptly' = at the quiescent state after the GOAWAY, without any timer firing.",
+         "DESIGN.md §4 C11"),
+ "C12": ("exhaustive fault enumeration (ELX) against the real Client: every cut offset and single mutation of a recorded server byte stream, scripted hostile servers, failing writes, Close at every point, with virtual timers",
+         "A recorded 11-frame server conversation answering two requests cut at every byte; 230+ single structural mutations; 15 hostile behaviours (RST_STREAM, REFUSED_STREAM, GOAWAY variants, oversized frame, garbage, PUSH_PROMISE, silence until the virtual timeout, late responses after a timeout followed by a new exchange, window overflow, invalid SETTINGS, unknown stream, DATA before HEADERS, PING flood); the client's k-th Write failing; Client.Close after every frame. Timers then fire until nothing is pending. Oracle: every RoundTrip returns exactly once; success only with the body the faulted script completed before END_STREAM; no unrecovered panic; after Close no goroutine and no queued request is left.",
+         "'Within its timeout' = after the request's virtual MaxResponseTime timer and the ping ticker have fired. Close racing Write at lock granularity is C19's.",
+         "DESIGN.md §4 C12"),
 }
 
 NOT_YET = "check not built yet (work in progress; see DESIGN.md §6 build order)"
